@@ -137,6 +137,34 @@ def pair_lines(rng, typ, n, nf, form, kind):
         other.lines.append('cal add_calibration 0 %s 2' % vlib.hexbytes(b'other'))
         B.lines = other.lines + B.lines
         B.solt()
+    elif kind == 'many_params':
+        # the same standards - two known two-ports (eight scalar parameters), reflect pairs entered as lines with explicit zeros, a
+        # through - in a fresh vnacal_t and in one that already holds other parameters (every handle is shifted)
+        if n != 2:
+            return None
+        twoports = [[[calsim.rc(rng, 0.4), calsim.rc(rng, 0.4) + 0.5], [calsim.rc(rng, 0.4) + 0.5, calsim.rc(rng, 0.4)]] for _ in range(2)]
+        pairs_ = [(calsim.SHORT, calsim.OPEN), (calsim.OPEN, calsim.MATCH), (calsim.MATCH, calsim.SHORT), (calsim.SHORT, calsim.SHORT)]
+        order = list(range(len(twoports) + len(pairs_) + 1))
+        rng.shuffle(order)
+        for sc_, shift in ((A, 0), (B, rng.choice([5, 8, 13, 21]))):
+            for _ in range(shift):
+                sc_.lines.append('cal make_scalar %d %s' % (sc_.c, vlib.c2h(calsim.rc(rng, 0.5) + 3.0)))
+            hbase = 3 + shift
+            hs = []
+            for S2 in twoports:
+                for a_ in (0, 1):
+                    for b_ in (0, 1):
+                        sc_.lines.append('cal make_scalar %d %s' % (sc_.c, vlib.c2h(S2[a_][b_])))
+                hs.append((hbase, hbase + 1, hbase + 2, hbase + 3))
+                hbase += 4
+            for k in order:
+                if k < len(twoports):
+                    sc_.add_line_handles(1, 2, hs[k], [twoports[k]] * nf)
+                elif k < len(twoports) + len(pairs_):
+                    c1, c2 = pairs_[k - len(twoports)]
+                    sc_.add_line_handles(1, 2, (c1, 0, 0, c2), [[[calsim.GAMMA[c1], 0], [0, calsim.GAMMA[c2]]]] * nf)
+                else:
+                    sc_.add_through(1, 2)
     elif kind == 'e12_ue14':
         if typ != 'E12':
             return None
@@ -285,7 +313,7 @@ def scale_ab_line(rng, line, typ):
     return ' '.join(w)
 
 
-KINDS = ['through_forms', 'abbreviated', 'double_forms', 'order', 'ab_scaling', 'unrelated', 'e12_ue14', 'renumber', 'freq_split', 'unrelated_kit', 'freq_split_kit']
+KINDS = ['through_forms', 'abbreviated', 'double_forms', 'order', 'ab_scaling', 'unrelated', 'e12_ue14', 'renumber', 'freq_split', 'unrelated_kit', 'freq_split_kit', 'many_params']
 
 
 def run(chk):
